@@ -11,6 +11,8 @@ import re
 import vlib
 
 PID = "C09"
+# formulas of MonClaimLifecycle.tla about the claim's connection secret on the production stack (wiring rider)
+WIRING_EXTRA = ["Conn.Recorded", "Conn.Published", "Conn.Secret"]
 MON_FORMULAS = ["Filtered.Body", "Filtered.Store", "Filtered.WholeSecret", "OnlyIfAsked", "ExactCopy", "NoRead",
                 "NoRewrite.Write", "NoRewrite.Published", "ForeignUntouched", "ForeignUntouched.UncontrolledOpaque",
                 "OwnerOnly", "Surfaces", "Extract.Keys", "Extract.Values", "Extract.ErrorEmpty"]
@@ -152,12 +154,15 @@ def run(ctx):
     rnd = random_vectors(ctx, 6000 if quick else 80000)
     chosen = regression() + direct + e2e + rnd
     s, nlines, per_formula, info, examples, hits = drive_and_judge(ctx, chosen)
+    from checks import wiring_rider
+    wr = wiring_rider.run(ctx, PID, extra=WIRING_EXTRA)
     samples = []
     for ev in s.get("samples", [])[:3]:
         o = ev["obs"]
         samples.append({"scenario": ev["scenario"], "fam": ev["fam"], "step": ev["step"], "input": ev["input"],
                         "obs": {k: o[k] for k in ("leg", "details", "filter", "xpre", "xpost", "cpre", "cpost", "published", "err", "writes", "xout", "xerr")}})
     ctx.cov.update(dict(
+        wiring_rider=wr,
         states=mc["states"], transitions=mc["transitions"], traces_validated_against_impl=s["runs"], samples=samples,
         model_runs={cfg: dict(states=mc["states"], transitions=mc["transitions"], vectors=mc["emitted"])},
         vectors_emitted=mc["emitted"], vectors_replayed=len(direct) + len(e2e), e2e_emitted=e2e_all, e2e_replayed=len(e2e),
@@ -186,6 +191,9 @@ def run(ctx):
 def replay(ctx, path):
     with open(path) as f:
         sc = json.load(f)
+    if sc.get("rider") == "wiring":
+        from checks import wiring_rider
+        return wiring_rider.replay(ctx, path, extra=WIRING_EXTRA)
     s, nlines, per_formula, info, examples, hits = drive_and_judge(ctx, [sc], shards=1)
     ctx.cov.update(dict(states=1, transitions=1, traces_validated_against_impl=s["runs"], samples=[sc], events=nlines,
                         violations_by_formula=per_formula, information=dict(counts=info), antecedent_hits=hits))
